@@ -65,7 +65,12 @@ def main():
         meta["ran"].append(f"PYTHONPATH=<clean tree> {PY} demo.py  -> exit {r.returncode}")
         r = sh(f"git -C {a.wt} apply {patch}")
         if r.returncode:
-            print(sid, "patch does not apply", r.stderr); continue
+            # written against an earlier /repo HEAD (before later fix: commits): confirm it there
+            sh(f"git -C {a.wt} checkout -q --detach 465838f")
+            meta["repo_head"] = "465838f"
+            r = sh(f"git -C {a.wt} apply {patch}")
+        if r.returncode:
+            print(sid, "patch does not apply", r.stderr); sh(f"git -C {a.wt} checkout -q --detach {head}"); continue
         try:
             files = re.findall(r"^diff --git a/(\S+)", open(patch).read(), re.M)
             meta["files"] = files
@@ -88,6 +93,7 @@ def main():
                     meta["caught_by"].append(c)
         finally:
             sh(f"git -C {a.wt} checkout -- .")
+            sh(f"git -C {a.wt} checkout -q --detach {head}")
         ok = (meta.get("demo_clean_exit") == 0 and meta.get("demo_changed_exit") not in (0, None)
               and "passed" in meta.get("tests_with_change", "") and "failed" not in meta.get("tests_with_change", ""))
         meta["confirmed"] = ok
